@@ -292,7 +292,12 @@ Definition prop_inspect (input obs : val) : val :=
     let insp_eof := is_tag (vnth 0 insp) "insperr" && is_tag (vnth 1 insp) "eof" in
     let open_eof := is_tag (vnth 0 scan) "openerr" && is_tag (vnth 1 scan) "eof" in
     let idx_eof := is_tag (vnth 0 idx) "idxerr" && is_tag (vnth 1 idx) "eof" in
-    if insp_eof && negb open_eof && negb (scan_ok && idx_eof)
+    (* inputs made by flipping one byte inside a block's data or its CID's digest in a valid
+       archive: full validation must fail (C13_full_validation_reports_a_corrupted_*_byte) *)
+    let how := vnth 5 input in
+    if (is_tag how "data-flip" || is_tag how "digest-flip") && is_tag (vnth 0 insp) "ok"
+    then VL [VT "FAIL"; VT "corruption-not-reported"]
+    else if insp_eof && negb open_eof && negb (scan_ok && idx_eof)
     then VL [VT "FAIL"; VT "inspect-error-is-clean-eof"]
     else if insp_ok && negb scan_ok then VL [VT "FAIL"; VT "inspect-succeeds-scan-fails"]
     else if insp_ok && negb idx_ok then VL [VT "FAIL"; VT "inspect-succeeds-index-codec-unreadable"]
